@@ -74,15 +74,20 @@ def init_world(wfname, backend="slurm", hashing=False, fresh=False, accounting=T
 # reference view of a world
 
 
+def latest_job(world, name):
+    """The job the scheduler created at the most recent *accepted* submission for target `name` (scheduler's own record)."""
+    sim = world.sim
+    for jid in reversed(sim["order"]):
+        j = sim["jobs"][jid]
+        if j["user"] == "me" and j["name"] == name:
+            return j
+    return None
+
+
 def job_class(world, name):
-    """Reference backend state word of target `name`: class of the scheduler's state of its latest tracked job,
-    as the *scheduler can report it* (see C08): used by checks that need ref.plan on a CLI world."""
-    backend = world.backend()
-    tracked = (world.tracked or {}).get(backend) or {}
-    jid = tracked.get(name)
-    if jid is None:
-        return "unknown"
-    j = world.sim["jobs"].get(jid)
+    """Reference backend state word of target `name`: class of the scheduler's state of its latest accepted job,
+    as the scheduler can report it."""
+    j = latest_job(world, name)
     if j is None:
         return "unknown"
     return visible_class(world.sim, j)
@@ -131,11 +136,7 @@ def ref_plan(world, roots=None, proj="/proj"):
 
 
 def tracked_job(world, name):
-    backend = world.backend()
-    jid = ((world.tracked or {}).get(backend) or {}).get(name)
-    if jid is None:
-        return None
-    return world.sim["jobs"].get(jid)
+    return latest_job(world, name)
 
 
 def enabled_env(world, kinds=("start", "finish_ok", "finish_fail", "timeout", "cancel", "forget")):
